@@ -64,6 +64,9 @@ func worker(args []string) {
 		os.Exit(2)
 	}
 	debug.SetMaxStack(256 << 20)
+	if ap := os.Getenv("VERIF_ANNOUNCE"); ap != "" {
+		core.InitAnnounce(ap)
+	}
 	budget := ck.QuickBudget
 	if tier == "thorough" {
 		budget = ck.ThoroughBudget
@@ -113,16 +116,47 @@ func run(prop, tier string) int {
 	self, _ := os.Executable()
 	results := make([]*core.Result, n)
 	deaths := make([]string, n)
+	hangs := make([]string, n)
+	annDir := filepath.Join(verifDir(), "build", "ann")
+	_ = os.MkdirAll(annDir, 0o755)
+	budget := ck.QuickBudget
+	if tier == "thorough" {
+		budget = ck.ThoroughBudget
+	}
+	if s := os.Getenv("VERIF_BUDGET_S"); s != "" {
+		if v, err := strconv.Atoi(s); err == nil {
+			budget = time.Duration(v) * time.Second
+		}
+	}
+	limit := budget + budget/2 + 60*time.Second
 	var wg sync.WaitGroup
 	for i := 0; i < n; i++ {
 		wg.Add(1)
 		go func(i int) {
 			defer wg.Done()
 			cmd := exec.Command(self, "worker", prop, tier, strconv.Itoa(i), strconv.Itoa(n))
-			cmd.Env = append(os.Environ(), "GOMAXPROCS="+strconv.Itoa(max(1, ck.ProcsPerWorker)))
+			annPath := filepath.Join(annDir, fmt.Sprintf("%s.%d", prop, i))
+			_ = core.NewAnnounceFile(annPath)
+			cmd.Env = append(os.Environ(), "GOMAXPROCS="+strconv.Itoa(max(1, ck.ProcsPerWorker)), "VERIF_ANNOUNCE="+annPath)
 			var so, se bytes.Buffer
 			cmd.Stdout, cmd.Stderr = &so, &se
-			err := cmd.Run()
+			err := cmd.Start()
+			if err == nil {
+				done := make(chan error, 1)
+				go func() { done <- cmd.Wait() }()
+				select {
+				case err = <-done:
+				case <-time.After(limit):
+					// the worker is stuck in one case (its own deadline is only checked between cases): the announced case hangs
+					_ = cmd.Process.Kill()
+					<-done
+					hangs[i] = core.ReadAnnounce(annPath)
+					if hangs[i] == "" {
+						hangs[i] = "(no case announced)"
+					}
+					return
+				}
+			}
 			var r core.Result
 			if jerr := json.Unmarshal(so.Bytes(), &r); jerr != nil || err != nil {
 				tail := se.String()
@@ -143,8 +177,20 @@ func run(prop, tier string) int {
 			total.Merge(r)
 		}
 	}
-	for _, d := range deaths {
+	for i, h := range hangs {
+		if h != "" {
+			total.Exhaustive = false
+			total.Caps = append(total.Caps, fmt.Sprintf("worker %d killed after %s: its shard is incomplete", i, limit))
+			total.Violations = append(total.Violations, core.Violation{Property: prop, Kind: "hang",
+				Attrs: map[string]string{"class": "no-return"}, Detail: map[string]interface{}{"announced_case": h, "limit": limit.String()}})
+			total.ViolCount["hang|class=no-return"]++
+		}
+	}
+	for i, d := range deaths {
 		if d != "" {
+			if a := core.ReadAnnounce(filepath.Join(annDir, fmt.Sprintf("%s.%d", prop, i))); a != "" {
+				d += "\nannounced case: " + a
+			}
 			// A worker that dies took the library down with it (Go fatal error) or the harness is broken.
 			if strings.Contains(d, "goroutine stack exceeds") || strings.Contains(d, "fatal error") {
 				total.Violations = append(total.Violations, core.Violation{Property: prop, Kind: "worker-death",
